@@ -10,6 +10,13 @@ COMMON_NOTE = ('Trusted base: z3 4.x/5.1 (python3-vt), the symx forking engine, 
                'reals), sizes beyond the stated bounds, GPU, complex dtypes. ')
 
 CHECKS = {
+ 'C04': dict(
+    text='viterbi() is executed on the z3-valued tensor model with symbolic log-weights; arg-max back-pointers are symbolic integers, so every feasible optimum/tie becomes its own path. Per path the derivation is checked for well-formedness and the '
+         'solver decides that the weight of derive() (independent evaluator) equals the definitional maximum over all derivations x assignments (when finite) and the Viterbi-semiring sum_product. Right level: optimality for all weights and all ties is a '
+         'quantified statement; tests fix one weight vector.',
+    note='Bounds: feature set + seeded samples of the single-rule / two-level families (<=3 nodes, <=4 edges per rule, <=12 weights), up to 3 start assignments each; recursive shapes of C02 with weights <= 0, derivation depth N+2. '
+         'Outside: +inf log-weights, rules listing an external node twice. Known finding F14 (zero-weight cycles recurse forever) is confined by its signature.',
+    technique='path-forking symbolic execution with symbolic arg-max pointers + SMT optimality queries (z3 LRA)', design='5/C04'),
  'C02': dict(
     text='sum_products is executed on recursive grammar shapes with all weights symbolic; every stopping test forks the path. The least-fixed-point clause is decided without computing limits by the Knaster-Tarski '
          'characterisation against an independently built equation map G: r = G(r) and, for a fresh universally quantified y, G(y) <= y implies r <= y. Exact for Bool, Viterbi (tol=0, non-positive weights) and the linear solver; '
